@@ -18,11 +18,17 @@ Shapes == {<<"*", "*">>, <<"text", "*">>, <<"text", "html">>, <<"text", "plain">
 Ranges == {R(sh[1], sh[2], q, ps) : sh \in Shapes, q \in Qs, ps \in Pss}
 OfferPool == {Of("text", "html", {}, ""), Of("text", "plain", {}, ""), Of("application", "json", {}, ""), Of("text", "html", P1, ""),
               Of("text", "html", P2, ""), Of("text", "html", {}, "html"), Of("application", "json", {}, "json")}
+\* token lists (Accept-Charset / -Encoding / -Language): a range is a token or "*", an offer is a token; they are written as
+\* media ranges with an empty subtype so that the same order and the same selection function decide them.  The three tokens
+\* are pairwise no prefixes of each other (the harness maps them to utf-8/iso-8859-1/us-ascii, gzip/br/deflate, en/de/fr).
+Toks == {"t1", "t2", "t3"}
+TokRanges == {R(t, "", q, {}) : t \in Toks \cup {"*"}, q \in Qs}
+TokOffers == {Of(t, "", {}, "") : t \in Toks}
 MaxRanges == IF Scope = "quick" THEN 2 ELSE 3
 MaxOffers == IF Scope = "quick" THEN 2 ELSE 3
 
-VARIABLES header, offers, stage
-vars == <<header, offers, stage>>
+VARIABLES header, offers, stage, kind
+vars == <<header, offers, stage, kind>>
 
 Spec9110(r) == IF r.type = "*" THEN 1 ELSE IF r.sub = "*" THEN 2 ELSE 3
 Acceptable(r, o) == /\ (r.type = "*" \/ r.type = o.type) /\ (r.sub = "*" \/ r.sub = o.sub)
@@ -43,8 +49,11 @@ Pick == IF header = <<>> THEN 1
                   IN CHOOSE k \in 1..Len(offers) : Acceptable(header[best], offers[k]) /\ \A m \in 1..(k - 1) : ~Acceptable(header[best], offers[m])
 
 Seqs(S, n) == UNION {[1..m -> S] : m \in 0..n}
-Init == stage = 0 /\ header \in Seqs(Ranges, MaxRanges) /\ offers = <<>>
-Next == stage = 0 /\ stage' = 1 /\ UNCHANGED header /\ \E os \in Seqs(OfferPool, MaxOffers) : Len(os) > 0 /\ offers' = os
+Init == /\ stage = 0 /\ offers = <<>>
+        /\ \/ kind = "media" /\ header \in Seqs(Ranges, MaxRanges)
+           \/ kind = "token" /\ header \in Seqs(TokRanges, MaxRanges + 1)
+Next == /\ stage = 0 /\ stage' = 1 /\ UNCHANGED <<header, kind>>
+        /\ \E os \in Seqs(IF kind = "media" THEN OfferPool ELSE TokOffers, MaxOffers) : Len(os) > 0 /\ offers' = os
 Spec == Init /\ [][Next]_vars
 
 \* properties of the selection function itself
@@ -53,6 +62,6 @@ AbsentSelectsFirst == (stage = 1 /\ header = <<>>) => Pick = 1
 \* Format(handlers...): the handler of the picked media type runs; if nothing is acceptable the handler registered as
 \* "default" runs wherever it stands in the list, and without one the answer is 406
 FormatOutcome(hasDefault) == IF Pick # 0 THEN "offer" ELSE IF hasDefault THEN "default" ELSE "406"
-Emit == stage = 1 => PrintT(<<"CASE", ToJson([header |-> header, offers |-> offers, pick |-> Pick,
+Emit == stage = 1 => PrintT(<<"CASE", ToJson([kind |-> kind, header |-> header, offers |-> offers, pick |-> Pick,
                                                 fmtPlain |-> FormatOutcome(FALSE), fmtDefault |-> FormatOutcome(TRUE)])>>)
 =============================================================================
